@@ -246,7 +246,8 @@ def denseGetBatch {α} (zero : α) (D : Dense α) (nCols : Nat) (rows : List Nat
     Except SpErr (Dense α) :=
   let metaSort := argsort rows
   let sorted := metaSort.map (rows.getD · 0)
-  if !strictInc sorted then .error .badRows
+  if rows.isEmpty then .error .emptyInput   -- h5py: `np.array([])` is a float array
+  else if !strictInc sorted then .error .badRows
   else if sorted.any (· ≥ D.length) then .error .indexOutOfRange
   else
     let raw := sorted.map (D.getD · [])
